@@ -22,7 +22,7 @@ def simplify_specifiers(spec):
     """Try to simplify a SpecifierSet by combining redundant specifiers."""
 
     def key(s):
-        return (s.version, 1 if s.operator in ['>=', '<'] else 2)
+        return (Version(s.version), 1 if s.operator in ['>=', '<'] else 2)
 
     def in_bounds(v, lo, hi):
         if lo and v not in lo:
@@ -65,6 +65,8 @@ def simplify_specifiers(spec):
             raise err()
         if ( gt.version == lt.version and gt.operator == '>=' and
              lt.operator == '<='):
+            if ne:
+                raise err()
             return SpecifierSet('=={}'.format(gt.version))
 
     return SpecifierSet(
